@@ -215,6 +215,29 @@ class Mode:
     def gt(self, a, b): return self.t(a) > self.t(b)
     def ge(self, a, b): return self.t(a) >= self.t(b)
 
+    # comparisons against computed boundaries: exact over the reals; in the floating-point replay a
+    # closed comparison gets a slack and a strict one a margin (so that boundary rounding can neither
+    # fake nor hide a violation)
+    def ge_b(self, a, b, scale=1.0):
+        if self.symbolic:
+            return self.t(a) >= self.t(b)
+        return a >= b - 1e-9 * (abs(a) + abs(b) + abs(scale))
+
+    def le_b(self, a, b, scale=1.0):
+        if self.symbolic:
+            return self.t(a) <= self.t(b)
+        return a <= b + 1e-9 * (abs(a) + abs(b) + abs(scale))
+
+    def gt_b(self, a, b, scale=1.0):
+        if self.symbolic:
+            return self.t(a) > self.t(b)
+        return a > b + 1e-9 * (abs(a) + abs(b) + abs(scale))
+
+    def lt_b(self, a, b, scale=1.0):
+        if self.symbolic:
+            return self.t(a) < self.t(b)
+        return a < b - 1e-9 * (abs(a) + abs(b) + abs(scale))
+
     def all_close(self, xs, ys, tol=None, scale=None):
         xs, ys = list(xs), list(ys)
         if len(xs) != len(ys):
